@@ -10,6 +10,8 @@ Python programs, so a verdict on the canonical form is a verdict on the program 
          anywhere outside the loop (a comprehension does not leak them), and the pair is not inside a try / with block
          (where a half-filled list could be observed after an exception).
   IFEXP  `if c: x = a` / `else: x = b` (one plain-name assignment in each arm, same name) becomes `x = a if c else b`.
+  CONST  a module-level name bound ONCE to a literal (and never assigned from outside the module) is that literal where the
+         module reads it.
   TEMP   `t = E` immediately followed by a statement that reads `t` exactly once becomes that statement with E in place of
          `t` -- when `t` is a plain local assigned once and read once in the whole function (nested functions included), the
          read is not inside a lambda / comprehension / nested def / loop condition, and no call, subscript or await completes
@@ -230,9 +232,68 @@ def _canon_function(fn):
     return changed_any
 
 
-def canonicalise(tree):
+def _inline_module_constants(tree, stored_attrs):
+    """CONST: a module-level `NAME = <literal>` (string, number, bool, None; also `A, B = 0, 1`) that is bound exactly once in the
+    module, never declared global in a function, and never assigned from outside as `<module>.NAME = ...` anywhere in the
+    package is that literal wherever the module reads NAME -- except inside functions / classes / comprehensions that bind
+    the same name themselves.  `if join == _JOIN_NONE` is then `if join == 'none'` for every rule."""
+    consts, counts = {}, {}
+    for st in tree.body:
+        pairs = []
+        if isinstance(st, ast.Assign) and len(st.targets) == 1:
+            t, v = st.targets[0], st.value
+            if isinstance(t, ast.Name):
+                pairs = [(t, v)]
+            elif isinstance(t, (ast.Tuple, ast.List)) and isinstance(v, (ast.Tuple, ast.List)) and len(t.elts) == len(v.elts) and all(isinstance(x, ast.Name) for x in t.elts):
+                pairs = list(zip(t.elts, v.elts))
+        elif isinstance(st, ast.AnnAssign) and st.value is not None and isinstance(st.target, ast.Name):
+            pairs = [(st.target, st.value)]
+        for t, v in pairs:
+            if isinstance(v, ast.Constant) and (v.value is None or isinstance(v.value, (str, int, float, bool))) and not t.id.startswith("__"):
+                consts[t.id] = v
+    if not consts:
+        return 0
+    for n in ast.walk(tree):
+        if isinstance(n, ast.Name) and isinstance(n.ctx, (ast.Store, ast.Del)):
+            counts[n.id] = counts.get(n.id, 0) + 1
+        elif isinstance(n, (ast.Global, ast.Nonlocal)):
+            for nm in n.names:
+                counts[nm] = counts.get(nm, 0) + 2
+        elif isinstance(n, ast.arg):
+            counts[n.arg] = counts.get(n.arg, 0) + 2
+        elif isinstance(n, (ast.FunctionDef, ast.AsyncFunctionDef, ast.ClassDef)):
+            counts[n.name] = counts.get(n.name, 0) + 2
+        elif isinstance(n, ast.alias):
+            nm = (n.asname or n.name).split(".")[0]
+            counts[nm] = counts.get(nm, 0) + 2
+    # bound once in the whole module (so no function, class or comprehension binds the name either) and not poked from outside
+    consts = {k: v for k, v in consts.items() if counts.get(k, 0) == 1 and k not in stored_attrs}
+    if not consts:
+        return 0
+    exported = set()
+    for st in tree.body:  # names listed in __all__ stay names: they are the module's interface
+        if isinstance(st, ast.Assign) and any(isinstance(t, ast.Name) and t.id == "__all__" for t in st.targets) and isinstance(st.value, (ast.List, ast.Tuple)):
+            exported |= {e.value for e in st.value.elts if isinstance(e, ast.Constant) and isinstance(e.value, str)}
+    consts = {k: v for k, v in consts.items() if k not in exported}
+
+    class _Sub(ast.NodeTransformer):
+        def __init__(self):
+            self.n = 0
+
+        def visit_Name(self, node):
+            if isinstance(node.ctx, ast.Load) and node.id in consts:
+                self.n += 1
+                return ast.copy_location(ast.Constant(value=consts[node.id].value), node)
+            return node
+
+    t = _Sub()
+    t.visit(tree)
+    return t.n
+
+
+def canonicalise(tree, stored_attrs=frozenset()):
     """in place; returns the number of rewrites"""
-    n = 0
+    n = _inline_module_constants(tree, stored_attrs)
     for node in ast.walk(tree):
         if isinstance(node, (ast.FunctionDef, ast.AsyncFunctionDef)):
             n += _canon_function(node)
